@@ -531,7 +531,7 @@ TYMAP = [
     (r"^Result < Self , ReserveError >$", "Rs Handle"),
     (r"^Result < Option < char > , ReserveError >$", "Rs (Option Chr)"),
     (r"^Result < char , ReserveError >$", "Rs Chr"),
-    (r"^Self$", "Handle"), (r"^Repr$", "Handle"), (r"^bool$", "Bool"), (r"^usize$", "Nat"), (r"^u8$", "Nat"),
+    (r"^Self$", "Handle"), (r"^& Self$", "Handle"), (r"^Repr$", "Handle"), (r"^bool$", "Bool"), (r"^usize$", "Nat"), (r"^u8$", "Nat"),
     (r"^& 'static str$", "SStr"), (r"^& str$", "Str"), (r"^$", "Unit"), (r"^char$", "Chr"),
     (r"^impl NumToRepr$", None),
 ]
@@ -640,6 +640,12 @@ class Lower:
                 head = f"Repr.{name}"
                 wrap = name in self.generated
                 return self.args(args, lambda as_: self.bindc(self.app(head, as_, wrap), k, ind), ind)
+            if self.self_field and recv[0] == "field" and recv[2] == "0" and recv[1][0] == "path" and len(recv[1][1]) == 1:
+                # `other.0.method(args)` on another LeanString (a `&Self` parameter)
+                other = ident(recv[1][1][0])
+                head = f"Repr.{name}"
+                wrap = name in self.generated
+                return self.args(args, lambda as_: self.bindc(f"onRepr {other} ({self.app(head, as_, wrap)})", k, ind), ind)
             return self.ex(recv, lambda r: self.args(args, lambda as_: self.bindc(self.app(f"{r}.rs_{name}", as_, False), k, ind), ind), ind)
         if t == "index":
             recv, idx = e[1], e[2]
@@ -784,6 +790,9 @@ TARGETS = [
     ("repr.rs", "impl Repr", "is_heap_buffer", "Repr.is_heap_buffer_body", False),
     ("repr.rs", "impl Repr", "is_static_buffer", "Repr.is_static_buffer_body", False),
     ("lib.rs", "impl LeanString", "clear", "LeanString.clear", True),
+    ("lib.rs", "impl Clone for LeanString", "clone", "LeanString.clone", True),
+    ("lib.rs", "impl Clone for LeanString", "clone_from", "LeanString.clone_from", True),
+    ("lib.rs", "impl Drop for LeanString", "drop", "LeanString.drop", True),
     ("lib.rs", "impl LeanString", "try_reserve", "LeanString.try_reserve", True),
     ("lib.rs", "impl LeanString", "try_shrink_to_fit", "LeanString.try_shrink_to_fit", True),
     ("lib.rs", "impl LeanString", "try_shrink_to", "LeanString.try_shrink_to", True),
@@ -810,6 +819,7 @@ SIGS = {
     "Repr.remove": ([("idx", "Nat")], "Rs Chr"), "Repr.pop": ([], "Rs (Option Chr)"),
     "Repr.is_heap_buffer_body": ([], "Bool"), "Repr.is_static_buffer_body": ([], "Bool"),
     "LeanString.clear": ([], "Unit"),
+    "LeanString.clone": ([], "Handle"), "LeanString.clone_from": ([("source", "Handle")], "Unit"), "LeanString.drop": ([], "Unit"),
     "LeanString.try_reserve": ([("additional", "Nat")], "Rs Unit"), "LeanString.try_shrink_to_fit": ([], "Rs Unit"),
     "LeanString.try_shrink_to": ([("min_capacity", "Nat")], "Rs Unit"), "LeanString.try_push": ([("ch", "Chr")], "Rs Unit"),
     "LeanString.try_pop": ([], "Rs (Option Chr)"), "LeanString.try_push_str": ([("string", "Str")], "Rs Unit"),
